@@ -149,6 +149,12 @@ def classify_internal(files, tb, err=None):
                 if _power_of_ten(v.strip('\'"')) >= 309:  # 10**308 < the largest float < 10**309
                     return 'KF-C18-9'
         return None
+    if tb['type'] == 'ValueError' and tb['message'].startswith('Exceeds the limit (4300 digits) for integer string conv'):
+        # KF-C18-8 (second face): an int beyond Python's int -> str limit is put into a message while the instruction
+        # is validated / run.  Model: the text holds an INTEGER 10**N, N >= 4300.
+        if any(_power_of_ten(w.strip('\'"')) >= 4300 for t in texts for w in t.split()):
+            return 'KF-C18-8'
+        return None
     if tb['type'] == 'OSError' and tb['message'].startswith('[Errno 36] File name too long') and inner in _KF10_SITES:
         # KF-C18-10: a file name the OS refuses as too long (a component of more than 255 bytes, or more than 4095
         # bytes in all) makes Path.exists() / os.chdir() raise at sites that expect only "does not exist".
@@ -238,7 +244,13 @@ def _is_kf5(files, name):
     without['t.case'] = '\n'.join('' if ph == 'cleanup' else l for l, ph in zip(lines, phases)) + '\n'
     obs = observe(without)
     ident = ident_of(obs)
-    if ident not in ('HARD_ERROR', 'FAIL', 'XFAIL') or obs['exception'] or obs['timed_out']:
+    if obs['exception'] or obs['timed_out']:
+        return False
+    if ident == 'INTERNAL_ERROR':
+        # the earlier failure may itself be the known finding about NUL characters
+        if classify_internal(without, R.traceback_summary(obs['err']), obs['err']) != 'KF-C18-4':
+            return False
+    elif ident not in ('HARD_ERROR', 'FAIL', 'XFAIL'):
         return False
     rep = R.parse_report(obs['err'])
     if rep['phase'] not in order or rep['phase'] == 'cleanup':
@@ -408,7 +420,8 @@ def targeted_demand(doc, f, info):
     return None
 
 
-_LATE = re.compile(r'@\[EXACTLY_(ACT|TMP|RESULT)\]@')
+# a value that refers to a directory of the test case (home or sandbox) is validated when its instruction runs
+_LATE = re.compile(r'@\[EXACTLY_(ACT|TMP|RESULT|HOME|ACT_HOME)\]@')
 
 
 def strict_problem(doc, f, info, demand, files, obs, parent_obs):
@@ -444,8 +457,13 @@ def strict_problem(doc, f, info, demand, files, obs, parent_obs):
         return None
     if _LATE.search(info['token']) and p_ident in ('FAIL', 'XFAIL', 'HARD_ERROR') and 'idents' not in demand and \
             (obs['exit'], obs['out'], obs['err']) == (parent_obs['exit'], parent_obs['out'], parent_obs['err']):
-        # a value that depends on a sandbox directory is validated when its instruction runs ("at the latest as
-        # HARD_ERROR when the instruction runs"); the parent fails before that, the mutant fails identically
+        # a value that depends on a directory of the test case is validated when its instruction runs ("at the
+        # latest as HARD_ERROR when the instruction runs"); the parent fails before that, the mutant fails identically
+        return None
+    if _LATE.search(info['token']) and info.get('elem_name') == 'stdin' and info.get('n_stdin', 0) > 1 and \
+            (obs['exit'], obs['out'], obs['err']) == (parent_obs['exit'], parent_obs['out'], parent_obs['err']):
+        # the contents of stdin are produced when the act phase reads them; a `stdin` that a later `stdin` replaces
+        # is like a definition that is never used: its value is never produced
         return None
     if ident == 'INTERNAL_ERROR':
         return None  # the generic oracle has reported / classified it
@@ -517,7 +535,8 @@ def check_doc(doc, muts, strict, tier_chars):
             elems = doc['elems'] if f == 0 else doc['inc']
             flat, owner = G.flatten(elems)
             info = dict(info, elem_line=M.line_of_token(flat, owner.index(info['elem'])),
-                        elem_name=elems[info['elem']]['name'])
+                        elem_name=elems[info['elem']]['name'],
+                        n_stdin=sum(1 for e in doc['elems'] + (doc['inc'] or []) if e['name'] == 'stdin'))
             kind = info['kind'].split(':')[0]
             labels.append('target:%s/%s' % (kind, info['op']))
             labels.append('instr:' + elems[info['elem']]['name'])
